@@ -242,7 +242,7 @@ def outside_model(node):
             if isinstance(f, ast.Name) and f.id in comb_names:
                 why = f"the combinator `{f.id}`"
                 break
-            if isinstance(f, ast.Attribute) and isinstance(f.value, ast.Name) and (f.value.id + ".") in comb_names:
+            if isinstance(f, ast.Attribute) and isinstance(f.value, ast.Name) and ((f.value.id + ".") in comb_names or f.value.id in comb_names):
                 why = f"the combinator `{f.value.id}.{f.attr}`"
                 break
     try:
